@@ -46,10 +46,14 @@ def _ref_for(rng, k, includer_url):
         if includer_url.startswith("file:"):
             return "file:/sim/abs1/" + name     # single-slash spelling
         return name
-    if r < 0.35:
+    if r < 0.34:
         # a path-absolute reference: resolved against the includer's URL it
         # keeps the includer's scheme and host
         return "/sim/abs2/" + name
+    if r < 0.35:
+        # a directory (or file) whose name begins with a tilde, next to the
+        # includer: a relative reference like any other
+        return rng.choice(["~/", "~root/", "~"]) + name
     if r < 0.55:
         return "sub/" + name
     if r < 0.7:
